@@ -914,6 +914,42 @@ def _sx_hash(x):
     return hash(x)
 
 
+def _resolve_attr_name(obj, name):
+    """concrete attribute name equal to the symbolic `name`, or None: the
+    name is compared with every attribute of the object (forks)"""
+    if not isinstance(name, SStr):
+        return name
+    n = len(name)
+    for cand in sorted(set(dir(obj))):
+        if len(cand) == n and bool(name == cand):
+            return cand
+    return None
+
+
+def _sx_hasattr(obj, name):
+    if isinstance(name, SStr):
+        c = _resolve_attr_name(obj, name)
+        return c is not None and hasattr(obj, c)
+    return hasattr(obj, name)
+
+
+_NODEFAULT = object()
+
+
+def _sx_getattr(obj, name, default=_NODEFAULT):
+    if isinstance(name, SStr):
+        c = _resolve_attr_name(obj, name)
+        if c is None:
+            if default is _NODEFAULT:
+                raise AttributeError('symbolic attribute name matches no '
+                                     'attribute')
+            return default
+        name = c
+    if default is _NODEFAULT:
+        return getattr(obj, name)
+    return getattr(obj, name, default)
+
+
 BUILTIN_SUBST = {
     'isinstance': _sx_isinstance,
     'int': _sx_int,
@@ -925,7 +961,8 @@ BUILTIN_SUBST = {
 
 REWRITE_CALL_NAMES = frozenset(['isinstance', 'int', 'str', 'bytes', 'repr',
                                 'float', 'bytearray', 'memoryview',
-                                'BytesIO', 'OrderedDict'])
+                                'BytesIO', 'OrderedDict', 'hasattr',
+                                'getattr'])
 
 
 def _sxrt_call(f, args, kw):
@@ -941,6 +978,10 @@ def _sxrt_call(f, args, kw):
         return _sx_repr(*args)
     if f is float:
         return _sx_float(*args)
+    if f is hasattr:
+        return _sx_hasattr(*args)
+    if f is getattr:
+        return _sx_getattr(*args)
     m = CLASS_MODELS.get(f)
     if m is not None:
         return m(*args, **kw)
